@@ -115,15 +115,24 @@ fn section_order_contract() {
 // Section i of the standard's order (LfGlobal, LfGroup.., HfGlobal, PassGroup.. pass-major) is the permutation[i]-th
 // section of the bitstream (identity if not permuted).
 //
-// What is REAL and what is ASSUMED in these harnesses:
-//   real     Toc::parse itself, Bitstream (read_bool / zero_pad_to_byte / read_u32 / num_read_bits) on symbolic bytes,
-//            FrameHeader::num_groups / num_lf_groups on a header built with default_with_context (never parsed),
-//            jxl_coding::Decoder::parse / begin / finalize on ONE fixed 11-bit histogram header (no LZ77, 8 contexts in
-//            one cluster, prefix code with a single symbol) -- a `Decoder` cannot be built any other way from this crate.
-//   assumed  jxl_coding::read_permutation is replaced (kani::stub) by its contract: it consumes some bits (0..=9 here)
-//            and returns Err or SOME permutation of 0..size -- every permutation of the table is explored. That the real
-//            Lehmer decoder returns a permutation is outside this unit (contracts/kani/jxl-coding/permutation.rs says why
-//            it is not under contract).
+// What is REAL and what is ASSUMED in these harnesses (measured: with none of the stubs CBMC exceeds 14 GB even for the
+// one-entry table -- a possible end-of-data Err inside `collect::<Result<Vec<_>, _>>()` makes `sizes.len()` symbolic and
+// every later `Vec::with_capacity(sizes.len())` a symbolic-size allocation; the real Decoder::parse on 4 CONCRETE bytes
+// does not finish in 400 s because read_clusters builds a HashSet):
+//   real     Toc::parse itself; Bitstream::read_bool / zero_pad_to_byte / read_u32 / peek_bits / consume_bits /
+//            num_read_bits on symbolic bytes; FrameHeader::num_groups / num_lf_groups on a header built with
+//            default_with_context (never parsed); for permuted tables jxl_coding::Decoder::parse / begin / finalize
+//            (Lz77::parse, IntegerConfig::parse, prefix::Histogram::parse) on ONE fixed 10-bit histogram header (no
+//            LZ77, prefix code with a single symbol) -- a `Decoder` value cannot be obtained in any other way.
+//   assumed  (a) enough data: Bitstream::read_bits is replaced by its own body with the end-of-data Err pruned
+//                (stub_read_bits). The end-of-data outcome of Toc::parse is therefore NOT covered here.
+//            (b) jxl_coding::read_permutation is replaced by its contract: it consumes some bits and returns Err or SOME
+//                permutation of 0..size -- every permutation of the table is explored. That the real Lehmer decoder
+//                returns a permutation is outside this unit (contracts/kani/jxl-coding/permutation.rs says why it is
+//                not under contract).
+//            (c) jxl_coding::read_clusters is replaced by "bits 1,00 (simple clustering, 0 bits per context) -> one cluster".
+//            (d) unpermuted harnesses: Decoder::parse is replaced by assume(false), i.e. permuted_toc == 0 is the
+//                precondition of those harnesses (the flag bit itself stays symbolic).
 // Entry counts: the format has no tables of 2..=4 entries (1, or 1 + num_lf_groups + 1 + num_groups * num_passes >= 5).
 use jxl_oxide_common::BundleDefault;
 
@@ -133,7 +142,27 @@ static mut STUB_BITS: usize = 0;
 static mut STUB_CALLS: u32 = 0;
 static mut STUB_ARGS: (u32, u32) = (0, 0);
 
-/// assumed contract of jxl_coding::read_permutation (see above)
+fn ok_or_prune<T: Default, E>(r: std::result::Result<T, E>) -> T {
+    match r {
+        Ok(x) => x,
+        Err(_) => {
+            kani::assume(false);
+            T::default()
+        }
+    }
+}
+
+/// assumption (a): Bitstream::read_bits (bitstream.rs:161) verbatim, end-of-data pruned
+fn stub_read_bits<'a>(bs: &mut Bitstream<'a>, n: usize) -> jxl_bitstream::BitstreamResult<u32>
+where
+    'a: 'a,
+{
+    let ret = bs.peek_bits(n);
+    ok_or_prune(bs.consume_bits(n));
+    Ok(ret)
+}
+
+/// assumption (b): contract of jxl_coding::read_permutation
 fn stub_read_permutation(
     bitstream: &mut Bitstream,
     _decoder: &mut jxl_coding::Decoder,
@@ -148,9 +177,7 @@ fn stub_read_permutation(
     if fail {
         return Err(jxl_coding::Error::InvalidPermutation);
     }
-    if bitstream.skip_bits(bits).is_err() {
-        return Err(jxl_coding::Error::InvalidPermutation);
-    }
+    ok_or_prune(bitstream.skip_bits(bits));
     Ok(match size {
         1 => [perm[0]].to_vec(),
         5 => [perm[0], perm[1], perm[2], perm[3], perm[4]].to_vec(),
@@ -160,6 +187,20 @@ fn stub_read_permutation(
             Vec::new()
         }
     })
+}
+
+/// assumption (c)
+fn stub_read_clusters(bitstream: &mut Bitstream, num_dist: u32) -> jxl_coding::CodingResult<(u32, Vec<u8>)> {
+    let is_simple = ok_or_prune(bitstream.read_bits(1));
+    let nbits = ok_or_prune(bitstream.read_bits(2));
+    kani::assume(is_simple == 1 && nbits == 0 && num_dist == 8);
+    Ok((1, [0u8; 8].to_vec()))
+}
+
+/// assumption (d)
+fn stub_decoder_unreachable(_b: &mut Bitstream, _n: u32) -> jxl_coding::CodingResult<jxl_coding::Decoder> {
+    kani::assume(false);
+    Err(jxl_coding::Error::InvalidPermutation)
 }
 
 fn toc_header(width: u32, height: u32, num_passes: u32) -> crate::FrameHeader {
@@ -221,11 +262,15 @@ fn spec_pad_ok(bytes: &[u8], pos: usize) -> bool {
     r == 0 || (bytes[pos >> 3] >> r) == 0
 }
 
-// 11-bit entropy-coder header, LSB first after the permuted_toc bit:
-//   lz77.enabled = 0 | is_simple clustering = 1, nbits = 00 (all 8 contexts -> cluster 0) | use_prefix_code = 1 |
-//   IntegerConfig(log_alphabet_size 15): split_exponent = 0000 (then msb/lsb take 0 bits) | prefix count: 0 -> one symbol
+// Permuted tables. The 10-bit entropy-coder header after the permuted_toc bit, LSB first:
+//   lz77.enabled = 0 | clustering: is_simple = 1, nbits = 00 | use_prefix_code = 1 |
+//   IntegerConfig(log_alphabet_size 15): split_exponent = 0000 (msb/lsb_in_token then take 0 bits) | prefix count flag 0: one symbol
+// The first CONCRETE_PREFIX bytes are constants (Bitstream::refill looks 8 bytes ahead; symbolic look-ahead bytes would
+// make the bit buffer, and with it every branch of Decoder::parse, symbolic). The stubbed read_permutation consumes the
+// rest of that prefix plus 0..=9 symbolic bits, so that the TOC entries start at every alignment inside symbolic bytes.
 const CODER_HEADER_BITS: usize = 10;
 const CODER_HEADER: u16 = 0b0_0000_1_00_1_0;
+const CONCRETE_PREFIX: usize = 17;
 
 /// N = table length, LEN = bytes offered to the parser (enough for the longest encoding), PAD = LEN + 8.
 fn parse_contract<const N: usize, const LEN: usize, const PAD: usize>(
@@ -235,25 +280,30 @@ fn parse_contract<const N: usize, const LEN: usize, const PAD: usize>(
     num_lf: usize,
     num_groups: usize,
     permuted: bool,
-    stub_bits_max: usize,
 ) {
     assert!(PAD == LEN + 8);
     let fh = toc_header(width, height, num_passes);
-    // ---- the bitstream: symbolic, except for the coder header when permuted
+    // ---- the bitstream
     let mut bytes: [u8; PAD] = kani::any();
     let mut k = LEN;
     while k < PAD {
         bytes[k] = 0;
         k += 1;
     }
-    let stub_bits: usize = kani::any();
-    kani::assume(stub_bits <= stub_bits_max);
+    let extra_bits: usize = kani::any();
+    kani::assume(extra_bits <= 9);
+    let stub_bits = 8 * CONCRETE_PREFIX - 1 - CODER_HEADER_BITS + extra_bits;
     if permuted {
-        let head = 1u16 | (CODER_HEADER << 1); // permuted_toc = 1, then the coder header: 11 bits
+        let head = 1u16 | (CODER_HEADER << 1); // permuted_toc = 1, then the coder header
+        let mut k = 0;
+        while k < CONCRETE_PREFIX {
+            bytes[k] = 0;
+            k += 1;
+        }
         bytes[0] = head as u8;
-        bytes[1] = (bytes[1] & !0x07) | ((head >> 8) as u8 & 0x07);
+        bytes[1] = (head >> 8) as u8;
     } else {
-        bytes[0] &= !1; // permuted_toc = 0
+        kani::assume(bytes[0] & 1 == 0); // permuted_toc = 0 (also enforced by stub_decoder_unreachable)
     }
     // ---- the permutation the (stubbed) decoder returns: any permutation of 0..N, or an error
     let perm: [usize; 8] = kani::any();
@@ -295,7 +345,7 @@ fn parse_contract<const N: usize, const LEN: usize, const PAD: usize>(
     }
     spec_ok = spec_ok && spec_pad_ok(&bytes, pos);
     pos = (pos + 7) & !7;
-    assert!(pos <= 8 * LEN); // harness sanity: the offered bytes always suffice (no end-of-data outcome here)
+    assert!(pos <= 8 * LEN); // harness sanity: the offered bytes always suffice
     let base = pos / 8;
 
     // ---- the real parser
@@ -311,7 +361,7 @@ fn parse_contract<const N: usize, const LEN: usize, const PAD: usize>(
     kani::cover!(r.is_err());
     let Ok(mut toc) = r else { return };
     kani::cover!(s[0] >= 4211712 && s[N - 1] < 1024);
-    kani::cover!(!permuted || perm[0] != 0);
+    kani::cover!(!permuted || N == 1 || perm[0] != 0);
 
     assert!(bitstream.num_read_bits() == pos, "[C14] parsing stops at the byte boundary after the last TOC entry");
     assert!(toc.num_lf_groups == num_lf && toc.num_groups == num_groups, "[C14] group counts of the frame header");
@@ -372,43 +422,68 @@ fn parse_contract<const N: usize, const LEN: usize, const PAD: usize>(
     assert!(toc.total_size == total && toc.bookmark() == base - gfo, "[C14] adjust_offsets keeps sizes, bookmark follows");
 }
 
+// ---- unpermuted tables: every byte symbolic (assumptions a, d)
 #[kani::proof]
 #[kani::unwind(10)]
-#[kani::stub(jxl_coding::read_permutation, stub_read_permutation)]
-fn parse_single_contract() {
+#[kani::stub(jxl_bitstream::Bitstream::read_bits, stub_read_bits)]
+#[kani::stub(jxl_coding::Decoder::parse, stub_decoder_unreachable)]
+fn parse_single_plain_contract() {
     // 1x1 frame, one pass: num_groups == 1 && num_passes == 1 -> ONE entry (toc.rs:184)
-    let permuted: bool = kani::any();
-    // 2 bytes header + 4 bytes entry + stub bits <= 9
-    parse_contract::<1, 8, 16>(1, 1, 1, 1, 1, permuted, 9);
+    parse_contract::<1, 8, 16>(1, 1, 1, 1, 1, false);
 }
 
 #[kani::proof]
 #[kani::unwind(10)]
-#[kani::stub(jxl_coding::read_permutation, stub_read_permutation)]
+#[kani::stub(jxl_bitstream::Bitstream::read_bits, stub_read_bits)]
+#[kani::stub(jxl_coding::Decoder::parse, stub_decoder_unreachable)]
 fn parse_two_passes_plain_contract() {
     // 1x1 frame, two passes: 1 + 1 + 1 + 1 * 2 = 5 entries
-    parse_contract::<5, 21, 29>(1, 1, 2, 1, 1, false, 0);
+    parse_contract::<5, 24, 32>(1, 1, 2, 1, 1, false);
 }
 
 #[kani::proof]
 #[kani::unwind(10)]
-#[kani::stub(jxl_coding::read_permutation, stub_read_permutation)]
-fn parse_two_passes_permuted_contract() {
-    parse_contract::<5, 24, 32>(1, 1, 2, 1, 1, true, 9);
-}
-
-#[kani::proof]
-#[kani::unwind(10)]
-#[kani::stub(jxl_coding::read_permutation, stub_read_permutation)]
-fn parse_two_groups_permuted_contract() {
+#[kani::stub(jxl_bitstream::Bitstream::read_bits, stub_read_bits)]
+#[kani::stub(jxl_coding::Decoder::parse, stub_decoder_unreachable)]
+fn parse_two_groups_plain_contract() {
     // 257x1 frame (group_dim 256: header.rs:31 default group_size_shift 1), one pass: 2 groups -> 1 + 1 + 1 + 2 = 5 entries
-    parse_contract::<5, 24, 32>(257, 1, 1, 1, 2, true, 9);
+    parse_contract::<5, 24, 32>(257, 1, 1, 1, 2, false);
+}
+
+// ---- permuted tables (assumptions a, b, c)
+#[kani::proof]
+#[kani::unwind(10)]
+#[kani::stub(jxl_bitstream::Bitstream::read_bits, stub_read_bits)]
+#[kani::stub(jxl_coding::read_permutation, stub_read_permutation)]
+#[kani::stub(jxl_coding::read_clusters, stub_read_clusters)]
+fn parse_single_permuted_contract() {
+    parse_contract::<1, 24, 32>(1, 1, 1, 1, 1, true);
 }
 
 #[kani::proof]
 #[kani::unwind(10)]
+#[kani::stub(jxl_bitstream::Bitstream::read_bits, stub_read_bits)]
 #[kani::stub(jxl_coding::read_permutation, stub_read_permutation)]
+#[kani::stub(jxl_coding::read_clusters, stub_read_clusters)]
+fn parse_two_passes_permuted_contract() {
+    parse_contract::<5, 40, 48>(1, 1, 2, 1, 1, true);
+}
+
+#[kani::proof]
+#[kani::unwind(10)]
+#[kani::stub(jxl_bitstream::Bitstream::read_bits, stub_read_bits)]
+#[kani::stub(jxl_coding::read_permutation, stub_read_permutation)]
+#[kani::stub(jxl_coding::read_clusters, stub_read_clusters)]
+fn parse_two_groups_permuted_contract() {
+    parse_contract::<5, 40, 48>(257, 1, 1, 1, 2, true);
+}
+
+#[kani::proof]
+#[kani::unwind(10)]
+#[kani::stub(jxl_bitstream::Bitstream::read_bits, stub_read_bits)]
+#[kani::stub(jxl_coding::read_permutation, stub_read_permutation)]
+#[kani::stub(jxl_coding::read_clusters, stub_read_clusters)]
 fn parse_two_by_two_permuted_contract() {
     // 257x1 frame, two passes: 1 + 1 + 1 + 2 * 2 = 7 entries
-    parse_contract::<7, 32, 40>(257, 1, 2, 1, 2, true, 9);
+    parse_contract::<7, 48, 56>(257, 1, 2, 1, 2, true);
 }
